@@ -174,6 +174,24 @@ def run_derivatives(ctx: Ctx) -> None:
                         bad = all_equal(jd[f"d{CH[c]}/d{LETTERS[j]}"] if f"d{CH[c]}/d{LETTERS[j]}" in jd else jd[(c, j)], to_rat(want[c, j].flat()[0]))
                         if bad:
                             return False, f"jacobian_dict(add_identity={add_identity})[{c},{j}]: {bad}"
+            # a batch of fields with different Jacobians (item n = (n + 1) u): every item gets its own derivatives
+            ub, _cb = poly_field(D, shape, h, 1, "u", N=2)
+            Jb = it.call(F_["jacobian_matrix"], ub, spacing=sp, add_identity=False)
+            if Jb.shape[0] != 2:
+                return False, f"jacobian_matrix of a batch of 2 fields has shape {tuple(Jb.shape)}"
+            detb = it.call(F_["jacobian_det"], ub, spacing=sp, add_identity=False)
+            divb = it.call(F_["divergence"], ub, spacing=sp)
+            for n in range(2):
+                fl = Jb[n].reshape([-1, D, D])
+                for q in range(fl.shape[0]):
+                    if not teq(fl[q], A.mul(n + 1)):
+                        return False, f"jacobian_matrix of a batch: item {n} sample {q} is {tstr(fl[q])[:90]}, expected {n + 1} A (the Jacobian of item {n})"
+                bad = all_equal(detb[n], to_rat(A.det().flat()[0]) * (n + 1) ** D)
+                if bad:
+                    return False, f"jacobian_det of a batch: item {n}: {bad}"
+                bad = all_equal(divb[n], sum((cu["A"][c][c] for c in range(D)), Rat.of(0)) * (n + 1))
+                if bad:
+                    return False, f"divergence of a batch: item {n}: {bad}"
             div = it.call(F_["divergence"], u, spacing=sp)
             bad = all_equal(div, sum((cu["A"][c][c] for c in range(D)), Rat.of(0)))
             if bad:
